@@ -465,6 +465,8 @@ theorem fits_of_dtype (p : Params) (x : Frame) (hwf : x.WF)
   have p15 : (2 : Int) ^ ((16 : Int).toNat - 1) = 32768 := by decide
   have p32 : (2 : Int) ^ (32 : Int).toNat = 4294967296 := by decide
   have p31 : (2 : Int) ^ ((32 : Int).toNat - 1) = 2147483648 := by decide
+  have p64 : (2 : Int) ^ (64 : Int).toNat = 18446744073709551616 := by decide
+  have p63 : (2 : Int) ^ ((64 : Int).toNat - 1) = 9223372036854775808 := by decide
   cases hd : x.dtype <;> rw [hd] at hk hsz hsg hlo hhi <;>
     simp only [DType.kind, DType.itemsize, DType.lo, DType.hi] at hk hsz hsg hlo hhi <;>
     (try simp at hk) <;>
@@ -819,12 +821,12 @@ theorem representable_of_accepted (p : Params) (x : Frame) (r : Int) (h : encode
     simp only [monoPI, requiredPI, jpegBaseline, rle, jpegLs, jpegLsNear, j2k, j2kLossless] at hcases hrle
     grind
 
-/-- a bits-allocated value other than 1, 8, 16, 32 cannot be decoded (pydicom refuses the data set) -/
+/-- a bits-allocated value other than 1, 8, 16, 32, 64 cannot be decoded (pydicom refuses the data set) -/
 theorem pydicomNative_refuses_allocated (conv : List Int → List Int) (p : Params) (rows cols samples : Nat) (bytes : List Nat)
-    (h : p.bitsAllocated ≠ 1 ∧ p.bitsAllocated ≠ 8 ∧ p.bitsAllocated ≠ 16 ∧ p.bitsAllocated ≠ 32) :
+    (h : p.bitsAllocated ≠ 1 ∧ p.bitsAllocated ≠ 8 ∧ p.bitsAllocated ≠ 16 ∧ p.bitsAllocated ≠ 32 ∧ p.bitsAllocated ≠ 64) :
     pydicomNative conv p rows cols samples bytes = .error .value := by
   unfold pydicomNative decodedDType
-  simp [h.1, h.2.1, h.2.2.1, h.2.2.2, bind, Except.bind]
+  simp [h.1, h.2.1, h.2.2.1, h.2.2.2.1, h.2.2.2.2, bind, Except.bind]
 
 /-- refused exactly when no route satisfies the specification -/
 theorem refused_iff (p : Params) (x : Frame) :
